@@ -428,10 +428,12 @@ func publishAfterInit(c *Ctx, rule string) {
 // every configured virtual host is appended to routers.virtualHosts in configuration order (a virtual host that cannot be
 // built rejects the whole configuration - it is never skipped), and the index recorded for its domains is its position
 // in the configuration. Otherwise a single-route update is made live in one virtual host and recorded under another.
-func c12IndexAligned(c *Ctx) {
+func c12IndexAligned(c *Ctx) { c12IndexAlignedRule(c, "C12.R7") }
+
+func c12IndexAlignedRule(c *Ctx, rule string) {
 	fn := c.F("pkg/router", "NewRouters")
 	if fn == nil {
-		c.Unresolved("C12.R7", "router.NewRouters")
+		c.Unresolved(rule, "router.NewRouters")
 		return
 	}
 	fk := funcKey(fn)
@@ -449,7 +451,7 @@ func c12IndexAligned(c *Ctx) {
 		}
 	})
 	if app == nil {
-		c.Unresolved("C12.R7", "append to routers.virtualHosts in NewRouters")
+		c.Unresolved(rule, "append to routers.virtualHosts in NewRouters")
 		return
 	}
 	var body map[*ssa.BasicBlock]bool
@@ -460,14 +462,14 @@ func c12IndexAligned(c *Ctx) {
 		}
 	}
 	if body == nil {
-		c.Fail("C12.R7", fk+":every-vhost-kept", app.Pos(), "the append to virtualHosts is not inside a loop over the configured virtual hosts")
+		c.Fail(rule, fk+":every-vhost-kept", app.Pos(), "the append to virtualHosts is not inside a loop over the configured virtual hosts")
 		return
 	}
 	// no path from the loop header back to the header that avoids the append (a skipped virtual host)
 	from := header.Instrs[len(header.Instrs)-1]
 	skip := existsPathEdges(fn, from, func(in ssa.Instruction) bool { return in.Block() == header }, func(in ssa.Instruction) bool { return in == ssa.Instruction(app) },
 		func(a, b *ssa.BasicBlock) bool { return body[b] })
-	c.Check("C12.R7", fk+":every-vhost-kept", app.Pos(), skip == nil, "every configured virtual host is appended (a build error rejects the whole configuration)", "a configured virtual host can be skipped while later ones are kept: live virtual-host positions no longer equal configuration positions, and AddRoute/RemoveAllRoutes record single-route updates under the wrong virtual host of the stored configuration")
+	c.Check(rule, fk+":every-vhost-kept", app.Pos(), skip == nil, "every configured virtual host is appended (a build error rejects the whole configuration)", "a configured virtual host can be skipped while later ones are kept: live virtual-host positions no longer equal configuration positions, and AddRoute/RemoveAllRoutes record single-route updates under the wrong virtual host of the stored configuration")
 	// the index handed to generateHostWithPortConfig is the range index of that loop
 	okIdx := false
 	for _, cs := range callsIn(fn, false, func(cc *ssa.CallCommon) bool { return methodName(cc) == "generateHostWithPortConfig" }) {
@@ -480,7 +482,7 @@ func c12IndexAligned(c *Ctx) {
 			}
 		}
 	}
-	c.Check("C12.R7", fk+":index-is-config-position", fn.Pos(), okIdx, "the index recorded for a domain is the virtual host's position in the configuration", "the index recorded for a virtual host's domains is not its position in routerConfig.VirtualHosts")
+	c.Check(rule, fk+":index-is-config-position", fn.Pos(), okIdx, "the index recorded for a domain is the virtual host's position in the configuration", "the index recorded for a virtual host's domains is not its position in routerConfig.VirtualHosts")
 	// and the manager really indexes the stored config with the live index
 	used := 0
 	for _, name := range []string{"AddRoute", "RemoveAllRoutes"} {
